@@ -74,12 +74,18 @@ def rmtree(d):
 
 # ---------------------------------------------------------------- Coq
 
-def coq_build():
-    """make the Coq development (no-op when current). Returns (ok, output)."""
+EXEC_MODELS = ["RtExec.vo", "IterExec.vo", "StructExec.vo", "CExec.vo"]
+
+
+def coq_build(targets=None):
+    """make the Coq development (no-op when current): the given .vo targets and everything they
+    depend on, or the whole project.  Returns (ok, output)."""
     with Lock("coq"):
-        if not os.path.exists(os.path.join(COQ, "Makefile")):
+        mk = os.path.join(COQ, "Makefile")
+        cp = os.path.join(COQ, "_CoqProject")
+        if not os.path.exists(mk) or os.path.getmtime(mk) < os.path.getmtime(cp):
             run(["coq_makefile", "-f", "_CoqProject", "-o", "Makefile"], cwd=COQ, check=True)
-        rc, out, err = run(["timeout", "3000", "make", "-j16"], cwd=COQ)
+        rc, out, err = run(["timeout", "3000", "make", "-j16"] + list(targets or []), cwd=COQ)
         return rc == 0, out + err
 
 
@@ -151,7 +157,7 @@ def coq_props(pid):
     if not os.path.exists(path):
         res["output"] = "missing " + path
         return res
-    ok, out = coq_build()
+    ok, out = coq_build([name + ".vo"] + EXEC_MODELS)
     if not ok:
         res["output"] = out[-6000:]
         return res
